@@ -493,10 +493,14 @@ func (e *kvElection) attemptPriorityTakeover(payloadBytes []byte) error {
 	return nil
 }
 
-func (e *kvElection) becomeFollower() {
+// becomeFollower moves the instance to the follower state. It reports whether
+// this call ended a leadership term: of several demotion paths that race, only
+// the one that actually took the leadership flag down gets true and runs the
+// demotion callback.
+func (e *kvElection) becomeFollower() bool {
 	e.mu.Lock()
 	defer e.mu.Unlock()
-	e.becomeFollowerLocked()
+	return e.becomeFollowerLocked()
 }
 
 // settleAsFollower moves a candidate whose acquisition failed into the follower
@@ -512,7 +516,7 @@ func (e *kvElection) settleAsFollower() {
 	e.becomeFollowerLocked()
 }
 
-func (e *kvElection) becomeFollowerLocked() {
+func (e *kvElection) becomeFollowerLocked() bool {
 	fromState := StateInit
 	if s := e.state.Load(); s != nil {
 		if str, ok := s.(string); ok {
@@ -524,7 +528,7 @@ func (e *kvElection) becomeFollowerLocked() {
 	// background goroutine that finishes afterwards must not move the stopped
 	// election to FOLLOWER or start a new watcher.
 	if fromState == StateStopped {
-		return
+		return false
 	}
 
 	wasLeader := e.isLeader.Load()
@@ -557,6 +561,8 @@ func (e *kvElection) becomeFollowerLocked() {
 			e.watchLoop(e.ctx)
 		}()
 	}
+
+	return wasLeader
 }
 
 func (e *kvElection) Stop() error {
